@@ -5,7 +5,7 @@
    DESIGN.md §5, F4.  The schedules are replayed on the implementation by the first
    corpus entries of tools/props/c10.py. *)
 From Coq Require Import List ZArith Bool Arith.
-From GZ Require Import C10.Model C10.ProofsT C10.ProofsP C10.ProofsL.
+From GZ Require Import C10.Model C10.AtomicErr C10.ProofsT C10.ProofsP C10.ProofsL.
 Import ListNotations.
 Open Scope Z_scope.
 
@@ -332,3 +332,75 @@ Theorem generator_panic_can_be_overtaken :
   g_panics s = [PUser 3; PUser 9] /\ g_cancels s = [] /\ ctx_done s = false
   /\ result s = Some ONoOutput /\ clean s = true.
 Proof. vm_compute. repeat split; reflexivity. Qed.
+
+(* Seeded change C10-10: core/errorx/atomicerror.go, "Set ignores a nil pointer wrapped in an error
+   interface" ([AtomicErr.guard_c1010]).  mr's cancel decides with a plain [err != nil] whether to
+   store the caller's error or ErrCancelWithNil: a typed nil passes that test and is handed to Set,
+   which now drops it.  The variant of the LTS: the store at the head of the cancel body goes
+   through [cancel_store guard_c1010] - a typed nil leaves retErr empty - everything else unchanged.
+   The call then returns ErrReduceNoOutput: an error nobody passed to cancel, although a cancel call
+   had been executed (ProofsA.normal_commit_not_cancelled_l proves the real LTS never does that). *)
+
+(* the contract of Set itself fails for the variant: a non-nil interface value is not loaded *)
+Theorem typed_nil_guard_breaks_set_contract :
+  exists v, v <> None /\ is_nil_iface v = false /\ same_type None v = true
+            /\ ae_load (fst (ae_set guard_c1010 None v)) <> v
+            /\ ae_load (fst (ae_set guard_today None v)) = v.
+Proof. exists (goerr_of (Some 1011)). vm_compute. repeat split; congruence. Qed.
+
+Theorem typed_nil_guard_drops_cancel_error :
+  exists e, goerr_of e <> None
+            /\ ae_load (fst (cancel_store guard_c1010 None (goerr_of e))) = None
+            /\ out_branch (fst (cancel_store guard_c1010 None (goerr_of e))) None = ONoOutput
+            /\ out_branch (fst (cancel_store guard_today None (goerr_of e))) None = OErr (err_of e).
+Proof. exists (Some 1011). vm_compute. repeat split; congruence. Qed.
+
+Definition step_c1010 (c : config) (s : state) (l : label) : option state :=
+  match step c s l with
+  | Some s1 =>
+    match reterr s, reterr s1 with
+    | None, Some (ECancel k) =>
+      (* the step was the head of a cancel body with cancel(code k) *)
+      match ae_load (fst (cancel_store guard_c1010 None (goerr_of (Some k)))) with
+      | None => Some (set_cancel s1 (cstate s1) None)
+      | Some _ => Some s1
+      end
+    | _, _ => Some s1
+    end
+  | None => None
+  end.
+Fixpoint run_c1010 (c : config) (s : state) (sched : list label) : state :=
+  match sched with
+  | [] => s
+  | l :: tl => match step_c1010 c s l with Some s1 => run_c1010 c s1 tl | None => run_c1010 c s tl end
+  end.
+
+(* one item whose mapper cancels with the typed nil (code 1011), a reducer that ranges over the pipe
+   and writes; any fair schedule will do *)
+Definition c1010_cfg (k : Z) : config :=
+  mkCfg VFixed false 1%nat [USend 1] (fun _ => [UCancel (Some k)]) rw false.
+Definition c1010_sched : list label := rep 30 (LMain BOut :: others).
+
+Theorem seed_c10_10_typed_nil_cancel_returns_no_output :
+  let s := run_c1010 (c1010_cfg 1011) (init (c1010_cfg 1011)) c1010_sched in
+  g_cancels s = [ECancel 1011] /\ result s = Some ONoOutput /\ clean s = true.
+Proof. vm_compute. repeat split; reflexivity. Qed.
+
+(* the same variant with an ordinary error, and the real code with the typed nil, return the error
+   that was passed *)
+Example c1010_variant_ordinary_error :
+  let s := run_c1010 (c1010_cfg 1008) (init (c1010_cfg 1008)) c1010_sched in
+  result s = Some (OErr (ECancel 1008)) /\ clean s = true.
+Proof. vm_compute. split; reflexivity. Qed.
+Example real_code_returns_the_typed_nil :
+  let s := run (c1010_cfg 1011) (init (c1010_cfg 1011)) c1010_sched in
+  g_cancels s = [ECancel 1011] /\ result s = Some (OErr (ECancel 1011)) /\ clean s = true.
+Proof. vm_compute. repeat split; reflexivity. Qed.
+
+(* a "first Set wins" AtomicError (CompareAndSwap(nil, err) instead of Store) is invisible to mr -
+   the once lets one Set in per call - but not to the contract: the second value is not loaded *)
+Definition ae_set_first_wins (st : av) (v : goerr) : av * bool :=
+  match st with Some _ => (st, false) | None => ae_set guard_today st v end.
+Theorem first_set_wins_breaks_set_contract :
+  exists st v, v <> None /\ same_type st v = true /\ ae_load (fst (ae_set_first_wins st v)) <> v.
+Proof. exists (Some (dyn_of_code 1008)), (goerr_of (Some 1018)). vm_compute. repeat split; congruence. Qed.
